@@ -120,10 +120,17 @@ def input_tags(wire):
     return tags
 
 
-def server_sig(div, mode, wire):
+def cfg_tags(cfg):
+    tags = []
+    if cfg.get("decompress") and cfg.get("override", D.NONE) != D.NONE:
+        tags.append("gz_override")
+    return tags
+
+
+def server_sig(div, mode, wire, cfg=None):
     exp, obs = div["exp"], div["obs"]
     return {"side": "server", "app": mode, "why": div["why"], "rej": exp["rej"], "shape": shape(exp, obs),
-            "act": div["act"], "tags": input_tags(wire)}
+            "act": div["act"], "tags": input_tags(wire) + cfg_tags(cfg or {})}
 
 
 def schedules(wire, family, rng):
@@ -155,7 +162,7 @@ def server_replayer(extra, path):
                                         eof_after=len(wire), env=env)
             if div:
                 div["pieces"] = [len(c) for c in ch]
-                div["sig"] = server_sig(div, extra["app"], wire)
+                div["sig"] = server_sig(div, extra["app"], wire, extra["cfg"])
                 return div
         return None
     finally:
@@ -239,9 +246,10 @@ def classify_server(t, bad, exp):
     e = D.Expect()
     e.msgs = [dict(m, hs=sorted(m["hs"], key=lambda p: p[0])) for m in exp["msgs"]]
     e.out, e.closed, e.rej, e.gzflux, e.gzdec = exp["out"], exp["closed"], exp["rej"], exp["gzflux"], exp["gzdec"]
+    e.gzover, e.maxb = exp.get("gzover", False), exp.get("maxb", 0)
     why = D.compare_server(e, bad["obs"])
     return {"side": "server", "app": "delegate", "why": why or "tlc-only", "rej": exp["rej"],
-            "shape": shape(D.exp_json(e), bad["obs"]), "tags": input_tags(t["wire"])}
+            "shape": shape(D.exp_json(e), bad["obs"]), "tags": input_tags(t["wire"]) + cfg_tags(t["cfg"])}
 
 
 def record_random_server(args):
